@@ -31,6 +31,12 @@ pub open spec fn denote<'a, T: Queryable>(d: Data<'a, T>) -> Option<T> {
 pub open spec fn truthy<'a, T: Queryable>(st: State<'a, T>) -> bool {
     st.data matches Data::Value(v) && v.as_bool_spec() == Some(true)
 }
+pub proof fn lemma_cur_nodes<'a, T: Queryable>(st: State<'a, T>)
+    requires is_cur(st),
+    ensures nodes(st.data) == seq![cur_node(cur_of(st))],
+{
+    assert(st.data->Ref_0.path@ =~= Seq::<char>::empty());
+}
 // node-mode relation shared by Selector / Segment / Vec<Segment> / JpQuery
 pub open spec fn nodes_rel<'a, T: Queryable>(st: State<'a, T>, r: State<'a, T>, out: Seq<Node<'a, T>>) -> bool {
     r.root == st.root && (is_nodes(st.data) ==> is_nodes(r.data) && nodes(r.data) == out)
@@ -48,10 +54,14 @@ pub open spec fn data_count<'a, T: Queryable>(d: Data<'a, T>) -> int {
     match d { Data::Value(v) => 1, Data::Ref(p) => 1, Data::Refs(v) => v@.len() as int, Data::Nothing => 0 }
 }
 pub open spec fn arg_rel<'a, T: Queryable>(a: FnArg, st: State<'a, T>, r: State<'a, T>) -> bool {
-    r.root == st.root
-    && data_value(r.data) == arg_value(arg_denote(a, cur_of(st), st.root))
-    && data_count(r.data) == arg_count(arg_denote(a, cur_of(st), st.root))
-    && (arg_value_typed(a) ==> !(r.data is Refs))
+    r.root == st.root && if arg_logical_fn(a) {
+        // a LogicalType function result (only an extension function can take it): some value with that truth
+        r.data is Value && (a matches FnArg::Test(t) && *t matches Test::Function(tf) && truthy(r) == fn_logical(*tf, cur_of(st), st.root))
+    } else {
+        data_value(r.data) == arg_value(arg_denote(a, cur_of(st), st.root))
+        && data_count(r.data) == arg_count(arg_denote(a, cur_of(st), st.root))
+        && (arg_value_typed(a) ==> !(r.data is Refs))
+    }
 }
 // result of a function extension: a logical value, or a value / nothing
 pub open spec fn fn_rel<'a, T: Queryable>(tf: TestFunction, st: State<'a, T>, r: State<'a, T>) -> bool {
@@ -90,31 +100,43 @@ pub proof fn lemma_fold_sqsegs<'a, T: Queryable + 'a, F: Fn(State<'a, T>, &Singu
 pub open spec fn is_container<'a, T: Queryable>(n: Node<'a, T>) -> bool {
     n.inner.as_array_spec() is Some || n.inner.as_object_spec() is Some
 }
-pub open spec fn containers<'a, T: Queryable>(ns: Seq<Node<'a, T>>) -> Seq<Node<'a, T>> {
-    ns.filter(|n: Node<'a, T>| is_container(n))
+pub open spec fn containers<'a, T: Queryable>(ns: Seq<Node<'a, T>>) -> Seq<Node<'a, T>>
+    decreases ns.len()
+{
+    if ns.len() == 0 { Seq::empty() }
+    else { let rest = containers(ns.drop_last()); if is_container(ns.last()) { rest.push(ns.last()) } else { rest } }
+}
+pub open spec fn desc_c_fn<'a, T: Queryable>() -> spec_fn(Node<'a, T>) -> Seq<Node<'a, T>> {
+    |n: Node<'a, T>| containers(descendants(n))
 }
 pub open spec fn seg_rel<'a, T: Queryable>(s: Segment, st: State<'a, T>, r: State<'a, T>) -> bool {
-    r.root == st.root && (is_nodes(st.data) ==> is_nodes(r.data) && seg_out_ok(s, nodes(r.data), rfc_seg(s, nodes(st.data), st.root)))
+    r.root == st.root && (is_nodes(st.data) ==> is_nodes(r.data))
+    // KNOWN FINDING (process_selectors.order): a multi-selector segment concatenates per selector instead of
+    // per input node, so the sequence claim is restricted to union-free segments
+    && (is_nodes(st.data) && !has_union(s) ==> nodes(r.data) == rfc_seg(s, nodes(st.data), st.root))
     && (s matches Segment::Selector(sel) && (sel is Name || sel is Index) && one_or_none(st.data) ==> one_or_none(r.data))
-}
-// KNOWN FINDING (process_selectors.order): for a multi-selector segment the evaluator concatenates per
-// selector instead of per input node, so only the multiset of the result is RFC-exact; every other kind
-// of segment is exact as a sequence.
-pub open spec fn has_union(s: Segment) -> bool decreases s {
-    match s { Segment::Selectors(v) => true, Segment::Descendant(b) => has_union(*b), Segment::Selector(sel) => false }
-}
-pub open spec fn seg_out_ok<'a, T: Queryable>(s: Segment, got: Seq<Node<'a, T>>, want: Seq<Node<'a, T>>) -> bool {
-    if has_union(s) { got.to_multiset() == want.to_multiset() } else { got == want }
 }
 pub open spec fn segs_rel<'a, T: Queryable>(segs: Seq<Segment>, st: State<'a, T>, r: State<'a, T>) -> bool {
     r.root == st.root && (is_nodes(st.data) ==> is_nodes(r.data))
-    && (is_nodes(st.data) && (forall|i: int| 0 <= i < segs.len() ==> !has_union(#[trigger] segs[i])) ==> nodes(r.data) == rfc_segs(segs, nodes(st.data), st.root))
+    && (is_nodes(st.data) && union_free(segs) ==> nodes(r.data) == rfc_segs(segs, nodes(st.data), st.root))
     && (singular_segs(segs) && one_or_none(st.data) ==> one_or_none(r.data))
 }
 // ---- entry points ----
 pub uninterp spec fn parsed(s: Seq<char>) -> Option<JpQuery>;
-pub open spec fn union_free(segs: Seq<Segment>) -> bool {
-    forall|i: int| 0 <= i < segs.len() ==> !has_union(#[trigger] segs[i])
-}
 pub open spec fn qnode<'a, T: Queryable>(q: QueryRef<'a, T>) -> Node<'a, T> { Node { inner: q.0, path: q.1@ } }
 pub open spec fn qnodes<'a, T: Queryable>(v: Seq<QueryRef<'a, T>>) -> Seq<Node<'a, T>> { v.map_values(|q: QueryRef<'a, T>| qnode(q)) }
+pub proof fn lemma_fold_segs<'a, T: Queryable + 'a, F: Fn(State<'a, T>, &Segment) -> State<'a, T>>(
+    f: F, xs: Seq<Segment>, init: State<'a, T>, r: State<'a, T>)
+    requires
+        forall|b: State<'a, T>, a: &Segment, o: State<'a, T>| #[trigger] f.ensures((b, a), o) ==> seg_rel(*a, b, o),
+        fold_rel(f, xs, init, r),
+    ensures segs_rel(xs, init, r),
+    decreases xs.len(),
+{
+    if xs.len() != 0 {
+        let mid = choose|mid: State<'a, T>| fold_rel(f, xs.drop_last(), init, mid) && #[trigger] f.ensures((mid, &xs.last()), r);
+        lemma_fold_segs(f, xs.drop_last(), init, mid);
+        assert(forall|i: int| 0 <= i < xs.drop_last().len() ==> xs.drop_last()[i] == xs[i]);
+        assert(xs.last() == xs[xs.len() - 1]);
+    }
+}
